@@ -667,7 +667,39 @@ func init() {
 }
 
 // genRepeatCase: a long history over a small finite alphabet of requests and reply templates (C19).
+// genVaryChurnCase: a finite request alphabet repeated many times against an origin whose answers to
+// validations are full responses with another Vary field set (including "*") than the stored one.
+func (g *G) genVaryChurnCase(p *Profile, id string) *Case {
+	c := &Case{ID: id, Stream: "M", SWRTimeout: p.SWRTimeouts[g.intn(len(p.SWRTimeouts))]}
+	varys := []string{"Accept-Encoding", "Accept-Encoding, *", "*", "X-Custom", "Accept-Encoding, X-Custom"}
+	v1 := varys[g.intn(len(varys))]
+	v2 := varys[g.intn(len(varys))]
+	k := 1 + g.intn(3)
+	var alphabet []Req
+	for i := 0; i < k; i++ {
+		alphabet = append(alphabet, Req{Method: "GET", URL: g.urlFor(0, false), Hdrs: []Hdr{{"Accept-Encoding", []string{g.pick("gzip", "br", "identity")}}, {"X-Custom", []string{g.pick("a", "b")}}}})
+	}
+	n := 50 + g.intn(40)
+	for i := 0; i < n; i++ {
+		rq := alphabet[g.intn(k)]
+		rq.Gap = g.pickD(time.Second, 5*time.Second, 500*time.Millisecond)
+		c.Reqs = append(c.Reqs, rq)
+	}
+	cc := g.pick("no-cache", "max-age=0", "max-age=1")
+	mk := func(idx int, vary string) Rep {
+		return Rep{Status: 200, BodyOK: true, Hdrs: []Hdr{{"X-Call", []string{strconv.Itoa(idx)}}, {"Content-Length", []string{strconv.Itoa(len(fmt.Sprintf("b%d.", idx)))}},
+			{"Cache-Control", []string{cc}}, {"ETag", []string{fmt.Sprintf(`"v%d"`, idx%3)}}, {"Vary", []string{vary}}}}
+	}
+	for i := 0; i < n+6; i++ {
+		c.Script = append(c.Script, ScriptEntry{Delay: 0, Plain: mk(i, v1), Cond: mk(i, v2)})
+	}
+	return c
+}
+
 func (g *G) genRepeatCase(p *Profile, id string) *Case {
+	if g.chance(0.2) {
+		return g.genVaryChurnCase(p, id)
+	}
 	c := &Case{ID: id, Stream: "M", SWRTimeout: p.SWRTimeouts[g.intn(len(p.SWRTimeouts))]}
 	k := 2 + g.intn(3)
 	var alphabet []Req
